@@ -4,7 +4,9 @@
    every run (Gen/C06Quote.v); lex_std / lex_ident / like_match / lex_blob are the receiving side (Model/C06Lex.v). *)
 Require Import PonyV.Base.PyBase PonyV.Model.C06Str PonyV.Model.C06Lex PonyV.Model.C06Params PonyV.Gen.C06Quote
                PonyV.Model.C06Stmt PonyV.Proofs.C06StrLemmas PonyV.Proofs.C06Proofs
-               PonyV.Gen.C06Pin PonyV.Model.C06Pin PonyV.Proofs.C06PinProofs.
+               PonyV.Gen.C06Pin PonyV.Model.C06Pin PonyV.Proofs.C06PinProofs
+               PonyV.Model.C07Base PonyV.Model.C07Fmt PonyV.Gen.C07Codec PonyV.Model.C07Codec PonyV.Proofs.C07Proofs PonyV.Proofs.C07Timedelta
+               PonyV.Model.C06Lit PonyV.Gen.C06Lit PonyV.Proofs.C06LitProofs PonyV.Model.C06Tok PonyV.Proofs.C06TokProofs.
 
 (* (1) a standard-SQL lexer reads back exactly s from the literal Pony writes, nothing is left after the closing quote
    (qmark / numeric / named: the statement text goes to the server as is) *)
@@ -136,6 +138,118 @@ Print Assumptions C06_bytes.
 Theorem C06_mod_symbol : forall st, server_text st (mod_symbol st) = Some [32; 37; 32].
 Proof. exact mod_symbol_server. Qed.
 Print Assumptions C06_mod_symbol.
+
+(* ---------------------------------------------------------------------------------------------------------------
+   literals other than str / bytes.  value_<kind>, sqlite_value_<kind>, mysql_value_<kind>, pg_value_<kind> are Value.__str__ and
+   its three subclasses translated per kind of value (Gen/C06Lit.v); via_server = after the driver's %-step for format /
+   pyformat; the readers (Model/C06Lit.v) are the literal grammars of the dialects; dates / timestamps / intervals are
+   parsed with the C07 builder's models (strptime_ymd, timestamp2datetime, str2timedelta). All paramstyles. *)
+Theorem C06_lit_none : forall st, via_server st (value_none st) (fun t => Some (lex_null t)) = Some true.
+Proof. exact lit_none. Qed.
+Print Assumptions C06_lit_none.
+Theorem C06_lit_bool : forall st b, via_server st (value_bool st b) lex_bool01 = Some b.
+Proof. exact lit_bool. Qed.
+Print Assumptions C06_lit_bool.
+Theorem C06_lit_bool_pg : forall st b, via_server st (pg_value_bool st b) lex_bool_pg = Some b.
+Proof. exact lit_bool_pg. Qed.
+Print Assumptions C06_lit_bool_pg.
+(* every integer (unbounded) *)
+Theorem C06_lit_int : forall st z, via_server st (value_int st z) lex_integer = Some z.
+Proof. exact lit_int. Qed.
+Print Assumptions C06_lit_int.
+(* integer-valued floats (repr = digits and .0; exact for |z| < 10^16): read as the decimal z*10 * 10^-1 *)
+Theorem C06_lit_float_integer_valued : forall st z, via_server st (value_floatint st z) lex_decimal = Some (z * 10, -1).
+Proof. exact lit_floatint. Qed.
+Print Assumptions C06_lit_float_integer_valued.
+(* Decimal with exponent <= 0 printed in plain notation (Python switches to E-notation beyond): coefficient and exponent read back *)
+Theorem C06_lit_decimal_plain : forall st c e, e <= 0 -> -6 < e + Z.of_nat (length (print_nat (Z.abs c))) ->
+  via_server st (value_decimal st (c, e)) lex_decimal = Some (c, e).
+Proof. exact lit_decimal_plain. Qed.
+Print Assumptions C06_lit_decimal_plain.
+(* DATE '..' and TIMESTAMP '..' (generic, PostgreSQL, MySQL, Oracle) *)
+Theorem C06_lit_date : forall st d, valid_date d -> via_server st (value_date st d) lex_date_lit = Some d.
+Proof. exact lit_date. Qed.
+Print Assumptions C06_lit_date.
+Theorem C06_lit_timestamp : forall st d, valid_datetime d -> via_server st (value_datetime st d) lex_timestamp_lit = Some d.
+Proof. exact lit_timestamp. Qed.
+Print Assumptions C06_lit_timestamp.
+(* INTERVAL '..' HOUR TO SECOND for every normalised timedelta (unbounded days, negative included); MySQL's two units *)
+Theorem C06_lit_interval : forall st t, td_norm t ->
+  via_server st (value_timedelta st t) (lex_interval_lit unit_hour_to_second) = Some t.
+Proof. exact lit_interval. Qed.
+Print Assumptions C06_lit_interval.
+Theorem C06_lit_interval_mysql : forall st t, td_norm t ->
+  via_server st (mysql_value_timedelta st t)
+    (lex_interval_lit (if td_us t =? 0 then unit_hour_second else unit_hour_microsecond)) = Some t.
+Proof. exact lit_interval_mysql. Qed.
+Print Assumptions C06_lit_interval_mysql.
+(* SQLite: plain quoted texts, read by Pony's own SQLite converters; a whole-day timedelta is the float of days *)
+Theorem C06_lit_sqlite_date : forall st d, valid_date d -> via_server st (sqlite_value_date st d) lex_sqlite_date = Some d.
+Proof. exact lit_sqlite_date. Qed.
+Print Assumptions C06_lit_sqlite_date.
+Theorem C06_lit_sqlite_datetime : forall st d, valid_datetime d ->
+  via_server st (sqlite_value_datetime st d) lex_sqlite_datetime = Some d.
+Proof. exact lit_sqlite_datetime. Qed.
+Print Assumptions C06_lit_sqlite_datetime.
+Theorem C06_lit_sqlite_timedelta_whole_days : forall st days,
+  via_server st (sqlite_value_timedelta_days st days) lex_decimal = Some (days * 10, -1).
+Proof. exact lit_sqlite_timedelta_days. Qed.
+Print Assumptions C06_lit_sqlite_timedelta_whole_days.
+(* where a subclass does not override a kind it renders exactly what Value renders *)
+Theorem C06_lit_classes_same : forall st,
+  (sqlite_value_none st = value_none st /\ mysql_value_none st = value_none st /\ pg_value_none st = value_none st)
+  /\ (forall b, sqlite_value_bool st b = value_bool st b /\ mysql_value_bool st b = value_bool st b)
+  /\ (forall z, sqlite_value_int st z = value_int st z /\ mysql_value_int st z = value_int st z /\ pg_value_int st z = value_int st z)
+  /\ (forall z, sqlite_value_floatint st z = value_floatint st z /\ mysql_value_floatint st z = value_floatint st z /\ pg_value_floatint st z = value_floatint st z)
+  /\ (forall d, sqlite_value_decimal st d = value_decimal st d /\ mysql_value_decimal st d = value_decimal st d /\ pg_value_decimal st d = value_decimal st d)
+  /\ (forall d, mysql_value_datetime st d = value_datetime st d /\ pg_value_datetime st d = value_datetime st d)
+  /\ (forall d, mysql_value_date st d = value_date st d /\ pg_value_date st d = value_date st d)
+  /\ (forall t, pg_value_timedelta st t = value_timedelta st t).
+Proof. exact lit_classes_same. Qed.
+Print Assumptions C06_lit_classes_same.
+
+(* ---------------------------------------------------------------------------------------------------------------
+   "No value or entity/column name can change the structure of the generated statement", with a tokeniser (Model/C06Tok.v:
+   string literal, quoted identifier, number, word, punctuation).  A statement is keyword text / slot / keyword text / ... where a
+   slot is a quoted name (quote_name), a string literal (quote_str), an integer literal or a placeholder (Param.__str__).
+   (1) the token classes of a well-formed statement are those of its skeleton; (2) statements with the same skeleton have the
+   same token-class sequence whatever names and values are plugged in; (3) for the four skeletons SQLBuilder produces for
+   INSERT / UPDATE / DELETE / SELECT-by-key.  All paramstyles, both identifier quote characters.  The sign of an inline integer
+   is part of the skeleton (-5 is two tokens). *)
+Theorem C06_tokens_of_statement : forall st q s, q = 34 \/ q = 96 -> stmt_ok s = true ->
+  tokenize (stmt_text st q s) = stmt_classes st s.
+Proof. exact tokenize_stmt. Qed.
+Print Assumptions C06_tokens_of_statement.
+
+Theorem C06_no_structure : forall st q s1 s2, q = 34 \/ q = 96 -> stmt_ok s1 = true -> stmt_ok s2 = true ->
+  stmt_shape s1 = stmt_shape s2 -> tokenize (stmt_text st q s1) = tokenize (stmt_text st q s2).
+Proof. exact no_structure. Qed.
+Print Assumptions C06_no_structure.
+
+Theorem C06_no_structure_insert : forall st q t1 c1 v1 t2 c2 v2, q = 34 \/ q = 96 ->
+  length c1 = length c2 -> same_values v1 v2 -> ids_ok v1 = true -> ids_ok v2 = true ->
+  tokenize (stmt_text st q (insert_stmt t1 c1 v1)) = tokenize (stmt_text st q (insert_stmt t2 c2 v2)).
+Proof. exact insert_no_structure. Qed.
+Print Assumptions C06_no_structure_insert.
+
+Theorem C06_no_structure_update : forall st q t1 s1 k1 t2 s2 k2, q = 34 \/ q = 96 ->
+  same_values (map snd s1) (map snd s2) -> same_values (map snd k1) (map snd k2) ->
+  ids_ok (map snd s1) = true -> ids_ok (map snd k1) = true -> ids_ok (map snd s2) = true -> ids_ok (map snd k2) = true ->
+  tokenize (stmt_text st q (update_stmt t1 s1 k1)) = tokenize (stmt_text st q (update_stmt t2 s2 k2)).
+Proof. exact update_no_structure. Qed.
+Print Assumptions C06_no_structure_update.
+
+Theorem C06_no_structure_delete : forall st q t1 k1 t2 k2, q = 34 \/ q = 96 ->
+  same_values (map snd k1) (map snd k2) -> ids_ok (map snd k1) = true -> ids_ok (map snd k2) = true ->
+  tokenize (stmt_text st q (delete_stmt t1 k1)) = tokenize (stmt_text st q (delete_stmt t2 k2)).
+Proof. exact delete_no_structure. Qed.
+Print Assumptions C06_no_structure_delete.
+
+Theorem C06_no_structure_select : forall st q c1 t1 k1 c2 t2 k2, q = 34 \/ q = 96 -> c1 <> [] ->
+  length c1 = length c2 -> same_values (map snd k1) (map snd k2) -> ids_ok (map snd k1) = true -> ids_ok (map snd k2) = true ->
+  tokenize (stmt_text st q (select_stmt c1 t1 k1)) = tokenize (stmt_text st q (select_stmt c2 t2 k2)).
+Proof. exact select_no_structure. Qed.
+Print Assumptions C06_no_structure_select.
 
 (* re-execution: a string index / slice bound (and a getattr name) taken from a Python variable is rendered inline as a
    literal.  For EVERY history of runs of the same query code object with changing values, the literal in the statement of
